@@ -38,7 +38,12 @@ func run(c *core.Ctx) {
 		nonNil++
 		r := &fnRec{id: i}
 		recs = append(recs, r)
-		beh := c.S.Plan(7)
+		beh := c.S.Plan(8)
+		if beh == 7 && n < 2 {
+			// a single function is documented to run on the calling goroutine: the call
+			// cannot return before it does, so a deaf one is only used among several
+			beh = 5
+		}
 		delay := c.S.Plan(5)
 		c.Descf("fn %d: behaviour %d delay %d", i, beh, delay)
 		fns = append(fns, func(ctx context.Context) error {
@@ -61,6 +66,12 @@ func run(c *core.Ctx) {
 			case 6: // an error that merely wraps context.Canceled is a real error of this function
 				r.err = fmt.Errorf("fn-%d failed: %w", r.id, context.Canceled)
 				return r.err
+			case 7: // deaf to its context: only the gate ends it
+				g := make(chan struct{})
+				gates = append(gates, g)
+				c.S.Count("probe:deaf-function")
+				simrt.Recv1("ccallx.fn-deaf", g)
+				return nil
 			case 4: // waits for its context, then returns its error
 				simrt.Recv1("ccallx.fn-wait", ctx.Done())
 				r.err = context.Canceled
